@@ -724,6 +724,85 @@ def run_instance_chains(_):
     return part.result()
 
 
+# ---- how far a binder's scope extends: the whole unparenthesised body, whatever operators it is built from ------------------------
+EXTENT_BODIES = {
+    "sum": ["v", "v + v", "w > 0 ? v : 0", "w > 0 ? 0 : v", "v > 0 ? v : v + 1", "w > 0 || v > 0 ? v : 1", "w > 0 ? v : w > 1 ? v + 1 : v + 2",
+            "v * 2 + (w > 0 ? v : 3)", "w > 0 && v > 0 ? 1 : v", "- v", "v >? w", "v + (sum (u : int[0,1]) v + u)", "v + sum (u : int[0,1]) u + v"],
+    "forall": ["v > 0", "w > 0 || v > 0", "w > 0 && v > 0", "w > 0 imply v > 0", "v > 0 imply w > 0 || v > 1", "w > 0 ? v > 0 : v > 1",
+               "! (w > 0) ? v > 0 : true", "w > 0 or v > 0", "w > 0 and v > 0", "w > 0 and v > 0 or v > 1", "not (v > 0)", "forall (u : int[0,1]) v > u",
+               "w > 0 ? v > 0 : w > 1 ? v > 2 : v > 3", "exists (u : int[0,1]) u > 0 ? v > 0 : v > 1", "v > 0 == (w > 0)", "w > 0 != v > 0"],
+}
+EXTENT_BODIES["exists"] = EXTENT_BODIES["forall"]
+
+
+def run_extents(_):
+    part = engine.Part()
+    w = engine.worker("fast")
+    g = "int[0,10] v; int[0,99] w; int[0,99] r;\n"
+    cells = []
+    for q, bodies in EXTENT_BODIES.items():
+        for b in bodies:
+            e = "%s (v : int[0,17]) %s" % (q, b)
+            uses = len(re.findall(r"\bv\b", b)) + 1
+            if q == "sum":
+                ctxs = {"update": dict(assign="r = " + e), "function-return": dict(decl="int[0,99] lf() { return %s; }" % e, assign="r = lf()"),
+                        "update-second": dict(assign="w = 1, r = " + e), "function-initialiser": dict(decl="int[0,99] lf() { int[0,99] t = %s; return t; }" % e)}
+            else:
+                ctxs = {"guard": dict(guard=e), "invariant": dict(inv=e), "guard-conjunct": dict(guard="w >= 0 && " + e),
+                        "function-return": dict(decl="bool lf() { return %s; }" % e, guard="lf()"), "update": dict(assign="r = " + e)}
+            for cid, kw in ctxs.items():
+                t = X.template("T", decl=kw.get("decl", ""), locations=[X.location("id0", "L0", inv=kw.get("inv")), X.location("id1", "L1")], init="id0",
+                               transitions=[X.transition("id0", "id1", guard=kw.get("guard"), assign=kw.get("assign"))])
+                cells.append(("%s:%s:%s" % (q, cid, b), uses, cid, X.nta(g, [t], "P = T(); system P;")))
+            cells.append(("%s:query:%s" % (q, b), uses, "query", ("E<> " + e) if q != "sum" else ("E<> (%s) >= 0" % e if False else "sup: " + e)))
+    docs = [c for c in cells if c[2] != "query"]
+    res = X.run_docs(w, [c[3] for c in docs], want=["dump"], batch=40)
+    qs = [c for c in cells if c[2] == "query"]
+    t0 = X.template("T", locations=[X.location("id0", "L0")], init="id0")
+    qr = w.call_safe({"op": "queries", "ctx": {"kind": "xml", "text": X.nta(g, [t0], "P = T(); system P;")}, "items": [c[3] for c in qs], "symtypes": True}, timeout=120)
+    if qr.get("died") or qr["ctx"]["errors"]:
+        raise RuntimeError("C07 generator bug: extent query context: %s" % str(qr)[:300])
+
+    def judge(key, uses, text, rp):
+        part.count()
+        ubs = re.findall(r"\(IDENTIFIER v:.*?<\(CONSTANT:INT 0\)> <\(CONSTANT:INT (\d+)\)>", text or "")
+        part.nontrivial_case("extent:" + key)
+        if len(ubs) != uses:
+            part.outcome("extent:occurrences-missing")
+            part.violation("binder-extent:count:" + key.split(":")[0] + ":" + key.split(":")[1], "%s: %d occurrences of v expected in the built expression, %d found: %s" %
+                           (key, uses, len(ubs), (text or "")[:200]), rp)
+        elif any(u != "17" for u in ubs):
+            part.outcome("extent:bound-outside-the-binder")
+            part.violation("binder-extent:" + key.split(":")[0] + ":" + key.split(":")[1], "%s: a use of v inside the quantifier's body is bound to the global v (upper bounds %s)" %
+                           (key, ubs), rp)
+        else:
+            part.outcome("extent:all-uses-bound-to-the-binder")
+    for (key, uses, cid, doc), r in zip(docs, res):
+        rp = {"op": "xml", "buf": doc, "want": ["dump"]}
+        if engine.check_crash(part, PID, r, key, rp):
+            continue
+        if not X.accepted(r):
+            raise RuntimeError("C07 generator bug: extent model rejected: %s %s" % (key, X.msgs(r)[:2]))
+        t = r["dump"]["templates"][0]
+        if cid == "function-initialiser":
+            text = {v["name"]: v["init"] for v in [f for f in t["decl"]["funcs"] if f["name"] == "lf"][0]["locals"]}.get("t")
+        elif cid.startswith("function"):
+            text = [f for f in t["decl"]["funcs"] if f["name"] == "lf"][0]["body"]
+        elif cid == "invariant":
+            text = t["locations"][0]["inv"]
+        elif cid.startswith("guard"):
+            text = t["edges"][0]["guard"]
+        else:
+            text = t["edges"][0]["assign"]
+        judge(key, uses, text, rp)
+    for (key, uses, cid, q), x in zip(qs, qr["results"]):
+        rp = {"op": "queries", "ctx": {"kind": "xml", "text": X.nta(g, [t0], "P = T(); system P;")}, "items": [q], "symtypes": True}
+        if x.get("sexpr") is None or x.get("err"):
+            raise RuntimeError("C07 generator bug: extent query rejected: %s %s" % (q, x.get("err")))
+        judge(key, uses, x["sexpr"], rp)
+    return part.result()
+
+
 def main():
     t = engine.tier()
     n_sub = sum(1 for _ in subsets())
@@ -750,6 +829,7 @@ def main():
     rep.merge(run_dynamic_parameters(None))
     rep.merge(run_process_sets(None))
     rep.merge(run_instance_chains(None))
+    rep.merge(run_extents(None))
     rep.assumptions = ["the declaration a use is bound to is identified by the upper bound of the symbol's declared range",
                        "a parameter and a local of the same name in one frame are a duplicate definition and are not enumerated"]
     sys.exit(rep.finish())
